@@ -121,7 +121,8 @@ fn c02_new(v: &[Val]) -> Result<bool, String> {
     let p = v[0].f().unwrap(); let d = v[1].f().unwrap(); let k = v[2].n().unwrap();
     let a = Angle::new(p, d);
     canon("Angle::new", &a)?;
-    let total = p * PI / d; // the float total the constructor itself decomposes
+    // the float total p·π/d; computed quotient-first where the product p·π would overflow or go subnormal
+    let total = if (p * PI).is_normal() { p * PI / d } else { p / d * PI };
     let (neg, fl, exact) = match exact_quarters(p, d) { Some(x) => x, None => return Ok(false) };
     let slack = TOL + 8.0 * EPS * total.abs().max(1.0);
     if !neg {
@@ -147,7 +148,7 @@ fn c02_new(v: &[Val]) -> Result<bool, String> {
     }
     // explicit blade offset adds exactly that many quarter turns
     let w = Angle::new_with_blade(k, p, d);
-    if w.blade() != a.blade() + k || w.rem().to_bits() != a.rem().to_bits() { return Err(format!("new_with_blade({}, ..) = {} but new(..) = {}", k, show_a(&w), show_a(&a))); }
+    if w.blade() != a.blade() + k || w.rem() != a.rem() { return Err(format!("new_with_blade({}, ..) = {} but new(..) = {}", k, show_a(&w), show_a(&a))); }
     let g = Geonum::new(2.5, p, d);
     if g.mag != 2.5 || !same_angle(&g.angle, &a) { return Err("Geonum::new disagrees with Angle::new".into()); }
     let gb = Geonum::new_with_blade(2.5, k, p, d);
@@ -178,7 +179,17 @@ fn c02_other(v: &[Val]) -> Result<bool, String> {
 
 // ------------------------------------------------------------------------------------------------ C16
 fn g_c16(r: &mut Rng) -> Vec<Val> {
-    let (a, b) = gen_geonum_pair(r);
+    let (mut a, mut b) = gen_geonum_pair(r);
+    if r.chance(1, 10) {
+        // signed zeros: a remainder (or magnitude) of -0.0 is what Angle::new(-0.0, d), new_from_cartesian(x, -0.0) and
+        // Geonum::new(m, 0.0, negative d) return; it is the same value as +0.0 for == and must be for the order too
+        let z = |r: &mut Rng| if r.chance(1, 2) { 0.0 } else { -0.0 };
+        let bl = if r.chance(1, 2) { 0 } else { a.angle.blade() };
+        let (ra, rb) = (z(r), z(r));
+        let (ma, mb) = if r.chance(1, 3) { (z(r), z(r)) } else if r.chance(1, 2) { (a.mag, a.mag) } else { (a.mag, b.mag) };
+        a = Geonum::new_with_angle(ma, mk_angle(bl, ra));
+        b = Geonum::new_with_angle(mb, mk_angle(bl, rb));
+    }
     let c = match r.below(4) { 0 => a, 1 => Geonum::new_with_angle(b.mag, a.angle), 2 => Geonum::new_with_angle(a.mag, mk_angle(a.angle.blade(), gen_rem(r))), _ => gen_geonum(r) };
     vec![Val::G(a), Val::G(b), Val::G(c)]
 }
@@ -209,7 +220,7 @@ fn g_sortlist(r: &mut Rng) -> Vec<Val> {
     let base = gen_list(r);
     let mut v = Vec::with_capacity(n);
     for _ in 0..n {
-        let g = if !base.is_empty() && r.chance(1, 2) { let o = *r.pick(&base); Geonum::new_with_angle(if r.chance(1, 2) { o.mag } else { gen_mag(r) }, mk_angle(o.angle.blade(), if r.chance(1, 3) { ulps(o.angle.rem(), r.range(-3, 3)).max(0.0) } else { o.angle.rem() })) } else { Geonum::new_with_angle(gen_mag(r), mk_angle(r.below(6) as usize, gen_rem(r))) };
+        let g = if !base.is_empty() && r.chance(1, 2) { let o = *r.pick(&base); Geonum::new_with_angle(if r.chance(1, 2) { o.mag } else { gen_mag(r) }, mk_angle(o.angle.blade(), if r.chance(1, 3) { ulps(o.angle.rem(), r.range(-3, 3)).max(0.0) } else if o.angle.rem() == 0.0 && r.chance(1, 2) { -0.0 } else { o.angle.rem() })) } else { Geonum::new_with_angle(gen_mag(r), mk_angle(r.below(6) as usize, gen_rem(r))) };
         v.push(g);
     }
     vec![Val::L(v)]
@@ -220,6 +231,9 @@ fn c16_sort(v: &[Val]) -> Result<bool, String> {
     let s = match catches(move || { let mut x = l2; x.sort(); x }) { Some(s) => s, None => return Err("sort panicked".into()) };
     if s.len() != l.len() { return Err("sort changed the length".into()); }
     for w in s.windows(2) { if w[0].cmp(&w[1]) == Ordering::Greater { return Err(format!("sorted output has {} before {}", show_g(&w[0]), show_g(&w[1]))); } }
+    // non-decreasing in the stated (blade, remainder, magnitude) order, judged independently of the library's own cmp
+    let refcmp = |p: &Geonum, q: &Geonum| p.angle.blade().cmp(&q.angle.blade()).then(p.angle.rem().partial_cmp(&q.angle.rem()).unwrap()).then(p.mag.partial_cmp(&q.mag).unwrap());
+    for w in s.windows(2) { if refcmp(&w[0], &w[1]) == Ordering::Greater { return Err(format!("sorted output is not in (blade, rem, mag) order: {} before {}", show_g(&w[0]), show_g(&w[1]))); } }
     let key = |g: &Geonum| (g.angle.blade(), g.angle.rem().to_bits(), g.mag.to_bits());
     let mut k1: Vec<_> = l.iter().map(key).collect(); let mut k2: Vec<_> = s.iter().map(key).collect();
     k1.sort(); k2.sort();
